@@ -268,3 +268,25 @@ def check(ctx, run):  # noqa: F811
     run.require("C13.R8", 1)
     from ..registry import resimulation_rule
     resimulation_rule(ctx, run, "C13.R7", only=("resim-state",))
+    # R4p: the grid is computed in the dtype of the prices (an integer grid times a Python float is a float32 tensor: converted afterwards, a
+    # float64 time to maturity is off the (T-1-i)*dt grid by 1e-8 and differs between the single-step and the all-steps form)
+    from ..dtypes import Provenance
+    from ..precision import lossy
+    mixq = "pfhedge.instruments.derivative.base.OptionMixin"
+    tfi = ctx.prog.lookup_method(mixq, "time_to_maturity")
+    if tfi is None:
+        raise AnalysisError("anchor vanished: OptionMixin.time_to_maturity")
+    for mode, ts in (("step", W.integer("i")), ("all steps", None)):
+        res_ = [r for r in ctx.interp.explore(tfi, [ts], {}, self_obj=W.option()) if not r["raises"]]
+        if not res_:
+            raise AnalysisError(f"time_to_maturity ({mode}): no analysable path")
+        bad_ = lossy(res_, None)
+        for r in res_:
+            pv = Provenance()
+            pv.of(r["value"])
+            bad_ += [f"{str(t.args[0])[:100]} is computed in a float dtype unrelated to the prices and converted afterwards" for t, v in pv.narrowed]
+        run.oblige("C13.R4p", f"time_to_maturity [{mode}] is computed at the precision of the prices", not bad_, "; ".join(bad_))
+        if bad_:
+            run.fail(Finding("C13.R4p", tfi.qualname, f"{mode}: {bad_[0]}"[:300], "time to maturity is only float32-accurate for a float64 instrument: off the (T-1-i)*dt grid at working precision",
+                             file=str(ctx.prog.modules[tfi.module].path), line=tfi.node.lineno, case=mode))
+    run.require("C13.R4p", 2)
